@@ -83,6 +83,133 @@ def build(fs, fu, order=0):
     return hw, sim, W
 
 
+_ENV = []
+
+
+def env_classes():
+    """Clocked environment blocks (py4hw Logic, so the simulator decides in which order they and the UART blocks are clocked).
+    ByteSource: ready/valid producer; a byte is transferred on an edge where the valid it drives and the ready it reads are
+    both 1; it keeps its own list of what it believes was accepted.  ByteSink: consumer whose ready follows a schedule that
+    is a function of time only; it keeps its own list of what it received."""
+    if _ENV:
+        return _ENV[0]
+    import py4hw
+
+    class ByteSource(py4hw.Logic):
+        def __init__(self, parent, name, data, gaps, ready, valid, v):
+            super().__init__(parent, name)
+            self.ready = self.addIn('ready', ready)
+            self.valid = self.addOut('valid', valid)
+            self.v = self.addOut('v', v)
+            self.data, self.gaps = data, gaps
+            self.pos = 0
+            self.offering = False
+            self.wait = gaps[0] if gaps else 0
+            self.t = 0
+            self.accepted = []
+            self.last_progress = 0
+
+        def clock(self):
+            self.t += 1
+            if self.offering and self.ready.get():
+                self.accepted.append(self.data[self.pos])
+                self.offering = False
+                self.pos += 1
+                self.last_progress = self.t
+                self.wait = self.gaps[self.pos] if self.pos < len(self.gaps) else 0
+            if self.offering:
+                self.valid.prepare(1)
+            elif self.pos < len(self.data) and self.wait == 0:
+                self.valid.prepare(1)
+                self.v.prepare(self.data[self.pos])
+                self.offering = True
+            else:
+                self.valid.prepare(0)
+                self.v.prepare(garbage(self.t))
+                if self.wait > 0:
+                    self.wait -= 1
+
+    class ByteSink(py4hw.Logic):
+        def __init__(self, parent, name, schedule, ready, valid, v):
+            super().__init__(parent, name)
+            self.ready = self.addOut('ready', ready)
+            self.valid = self.addIn('valid', valid)
+            self.v = self.addIn('v', v)
+            self.schedule = schedule
+            self.t = 0
+            self.cur = 0
+            self.got = []
+
+        def clock(self):
+            if self.cur and self.valid.get():
+                self.got.append(self.v.get())
+            self.cur = self.schedule.next(self.t)
+            self.t += 1
+            self.ready.prepare(self.cur)
+
+    _ENV.append((ByteSource, ByteSink))
+    return _ENV[0]
+
+
+def simulate_blocks(case, rnd=None):
+    """The same link, but both ready/valid ports are driven from inside the design by clocked blocks that are instantiated before
+    or after the UART block they talk to (case['env'] = {producer: before|after, consumer: before|after}).  The recording is
+    the same boundary recording as in simulate(); in addition each environment block reports its own view of the transfers."""
+    import py4hw
+    from py4hw.logic.protocol.uart.serdes import UARTSerializer, UARTDeserializer
+    from py4hw.logic.protocol.uart.clock import ClockGenerationAndRecovery
+    ByteSource, ByteSink = env_classes()
+    fs, fu = case['fs'], case['fu']
+    period = realised_period(fs, fu)
+    rd, env = case['ready'], case['env']
+    schedule = Ready(rd['mode'], rd['maxgap'], rnd, case.get('ready_rle'))
+    hw = py4hw.HWSystem()
+    W = _link_wires(hw, '')
+    box = {}
+
+    def src():
+        box['src'] = ByteSource(hw, 'src', list(case['data']), list(case['gaps']), W['s_ready'], W['s_valid'], W['s_v'])
+
+    def sink():
+        box['sink'] = ByteSink(hw, 'sink', schedule, W['d_ready'], W['d_valid'], W['d_v'])
+
+    link = [lambda: ClockGenerationAndRecovery(hw, 'uart_clock', W['tx'], W['desync'], W['pulse'], W['rx_sample'], fs, fu),
+            lambda: UARTDeserializer(hw, 'des', W['tx'], W['rx_sample'], W['d_ready'], W['d_valid'], W['d_v'], W['desync']),
+            lambda: UARTSerializer(hw, 'ser', W['s_ready'], W['s_valid'], W['s_v'], W['pulse'], W['tx'])]
+    k = case.get('order', 0) % 3
+    seq = ([src] if env['producer'] == 'before' else []) + ([sink] if env['consumer'] == 'before' else []) + link[k:] + link[:k] + \
+          ([src] if env['producer'] == 'after' else []) + ([sink] if env['consumer'] == 'after' else [])
+    with muted():
+        for f in seq:
+            f()
+        sim = hw.getSimulator()
+    source = box['src']
+    tr = dict(sv=[], sr=[], sd=[], tx=[], dv=[], dr=[], dd=[], rs=[])
+    cols = [(tr[a], W[b]) for a, b in (('sv', 's_valid'), ('sr', 's_ready'), ('sd', 's_v'), ('tx', 'tx'), ('dv', 'd_valid'),
+                                         ('dr', 'd_ready'), ('dd', 'd_v'), ('rs', 'rx_sample'))]
+    bound_bits = LATENCY_BOUND_BITS + rd.get('stall_bits', 0)
+    tail = (bound_bits + 4) * period
+    give_up = (STALL_BOUND_BITS + 14) * period + max(case['gaps'] or [0]) + 8
+    stall = None
+    t = 0
+    with muted():
+        while True:
+            for col, w in cols:
+                col.append(w.get())
+            sim.clk(1)
+            t += 1
+            if source.pos >= len(case['data']):
+                if t > source.last_progress + tail:
+                    break
+            elif t - source.last_progress > give_up:
+                stall = dict(byte_index=source.pos, offered_at=source.last_progress, gave_up_at=t)
+                break
+    tr['period'], tr['bound_bits'], tr['stall'], tr['cycles'] = period, bound_bits, stall, len(tr['tx'])
+    tr['src_accepted'] = list(source.accepted)
+    tr['sink_got'] = list(box['sink'].got)
+    return tr
+
+
 def garbage(t):
     """what the producer leaves on s_v while s_valid is low (a function of the cycle, so replays need no storage)."""
     return (t * 0x9D + 0x3B) & 0xFF
@@ -196,6 +323,8 @@ def simulate(case, rnd=None):
 
     case: fs, fu, order, data (bytes), gaps (idle cycles before byte i is offered, counted from the cycle after the previous
     acceptance; 0 = valid held), ready = {mode, maxgap} (+ ready_rle for an explicit schedule)."""
+    if case.get('env'):
+        return simulate_blocks(case, rnd)
     fs, fu = case['fs'], case['fu']
     period = realised_period(fs, fu)
     data, gaps = case['data'], case['gaps']
@@ -470,6 +599,19 @@ def judge(tr):
     findings = []
     obs = dict(accepted=len(acc), delivered=len(dlv))
 
+    # ---- both sides of each ready/valid port agree on what was transferred (environment blocks inside the design)
+    for name, theirs, mine, clause_kind in (('producer', tr.get('src_accepted'), accv, 'producer_view_differs'),
+                                            ('consumer', tr.get('sink_got'), dlvv, 'consumer_view_differs')):
+        if theirs is not None and theirs != mine:
+            k = next((i for i in range(min(len(theirs), len(mine))) if theirs[i] != mine[i]), min(len(theirs), len(mine)))
+            rel = 'block_counts_fewer' if len(theirs) < len(mine) else 'block_counts_more' if len(theirs) > len(mine) else 'values_differ'
+            findings.append(dict(clause='port', kind=clause_kind, relation=rel, index=k, expected=mine[max(0, k - 1):k + 3],
+                                 observed=theirs[max(0, k - 1):k + 3],
+                                 what='the clocked %s block counts %d transfers, %d handshakes are visible on the port at the cycle boundaries; '
+                                      'first difference at transfer %d: port %s, block %s' % (
+                                          name, len(theirs), len(mine), k, [hex(x) for x in mine[max(0, k - 1):k + 3]],
+                                          [hex(x) for x in theirs[max(0, k - 1):k + 3]])))
+    obs['env_transfers_cross_checked'] = (len(tr['src_accepted']) + len(tr['sink_got'])) if tr.get('src_accepted') is not None else 0
     # ---- delivery: same sequence
     d = first_divergence(accv, dlvv)
     if d is not None:
@@ -620,6 +762,12 @@ def plan(tier, seed):
             specs.append(dict(fs=fs, fu=fu, kind='repeats', n=20, gap=['none', 'mixed'][k % 2], ready='withdraw', sweep='edge', order=(k + 1) % 3))
             specs.append(dict(fs=fs, fu=fu, kind='special', n=20, gap=['rand', 'none'][k % 2], ready=['late_take', 'withdraw'][k % 2], sweep='rand',
                               order=(k + 2) % 3))
+        placements = [dict(producer=a, consumer=b) for a in ('after', 'before') for b in ('after', 'before')]
+        for k, (fs, fu) in enumerate(WIDE_RATIOS):       # both ports driven by clocked blocks placed before / after the UART blocks
+            for m in range(2):
+                specs.append(dict(fs=fs, fu=fu, kind=['random', 'repeats'][m], n=16, gap=gapmodes[(k + 2 * m) % 5],
+                                  ready=['always', 'rand', 'worst', 'sparse', 'rand_long'][(k + m) % 5], order=(k + m) % 3,
+                                  env=placements[(2 * k + m) % 4]))
         for k, r2 in enumerate(range(8, 129)):           # every ratio 4.0, 4.5 .. 64.0 through varying float pairs
             fu = FU_VARIANTS[k % len(FU_VARIANTS)]
             specs.append(dict(fs=r2 * fu / 2, fu=fu, kind='toggle', n=6, gap=['none', 'none', 'one'][k % 3], ready=['always', 'rand'][k % 2], order=k % 3))
@@ -634,6 +782,10 @@ def plan(tier, seed):
             for j in range(250):
                 specs.append(dict(fs=fs, fu=fu, kind=['repeats', 'random', 'special'][j % 3], n=40, gap=gapmodes[j % 5],
                                   ready=readymodes[(j // 5) % 8], sweep=['full', 'edge', 'rand'][(j // 40) % 3], order=j % 3))
+            placements = [dict(producer=a, consumer=b) for a in ('after', 'before') for b in ('after', 'before')]
+            for j in range(24):
+                specs.append(dict(fs=fs, fu=fu, kind=['repeats', 'random', 'special'][j % 3], n=40, gap=gapmodes[j % 5],
+                                  ready=['always', 'rand', 'worst', 'sparse', 'rand_long'][(j // 5) % 5], order=j % 3, env=placements[j % 4]))
         for k, r2 in enumerate(range(8, 129)):
             for v, fu in enumerate(FU_VARIANTS):
                 specs.append(dict(fs=r2 * fu / 2, fu=fu, kind='toggle', n=12, gap=gapmodes[(k + v) % 5], ready=readymodes[(k + v) % 3], order=v % 3))
@@ -718,6 +870,8 @@ def expand(spec, seed):
         ready = dict(mode=spec['ready'], name=spec['ready'], maxgap=period // 2)
     case = dict(fs=spec['fs'], fu=spec['fu'], order=spec['order'], data=data, gaps=gaps,
                 ready=ready, gap_mode=spec['gap'], kind=spec['kind'])
+    if spec.get('env'):
+        case['env'] = dict(spec['env'])
     return case, rng(seed, 'C17', 'ready', spec['id'])
 
 
@@ -749,6 +903,10 @@ def report(run, case, tr, findings, group=None, chan=None):
         key = 'c17_%s_%s' % (f['clause'], f['kind'])
         fields = dict(clause=f['clause'], kind=f['kind'], relation=f['relation'], ratio_class=ratio_class(fs, fu),
                       gap_mode=case.get('gap_mode'), ready_mode=case['ready'].get('name', case['ready']['mode']))
+        if case.get('env'):
+            fields['env'] = 'producer_%s/consumer_%s' % (case['env']['producer'], case['env']['consumer'])
+            f = dict(f, what='[clocked producer %s the serializer, clocked consumer %s the deserializer] ' % (
+                case['env']['producer'], case['env']['consumer']) + f['what'])
         rc = shrink_for_replay(case, tr, f)
         run.violation(key, fields, rc, expected=f['expected'], observed=f['observed'],
                       what='fs/fu=%s/%s (bit period %d clocks) gap=%s ready=%s: %s' % (
@@ -813,6 +971,9 @@ def account(run, case, tr, agg, group=None, chan=None):
         base = 12 * period
         agg['stalled_deliveries'] += sum(1 for x in obs['latencies'] if x > base + 2 * period)
     agg['ready_low_cycles'] += tr['dr'].count(0)
+    if case.get('env'):
+        ek = 'producer_%s/consumer_%s' % (case['env']['producer'], case['env']['consumer'])
+        agg['env'][ek] = agg['env'].get(ek, 0) + obs['env_transfers_cross_checked']
     if findings:
         report(run, case, tr, findings, group, chan)
     return tr, findings, obs
@@ -836,6 +997,9 @@ def run_check(run, tier, seed, shard):
                'cycle later it is overwritten, which is the no-back-pressure limit); the take cycle is swept cycle by cycle over that '
                'window (capped at %d bit periods after completion), the deadline of these runs is extended by %d bit periods' % (
                    TAKE_WINDOW_BITS, TAKE_WINDOW_BITS + 1))
+    run.assume('environment placement classes: both ready/valid ports are also driven by clocked producer / consumer blocks inside the '
+               'design, instantiated before and after the UART block they talk to (the simulator states that clocked blocks need no '
+               'order); the transfers each block counts must equal the handshakes visible on the port at the cycle boundaries')
     run.assume('composition classes: several links alive at once (full duplex A<->B with one clock block per end point, N parallel '
                'loop-back links with different ratios in one HWSystem, two HWSystems stepped alternately); every link is judged by '
                'its own reference exactly as a single link is -- links share no wire, so they must not influence each other')
@@ -846,7 +1010,7 @@ def run_check(run, tier, seed, shard):
     specs = shard_slice(plan(tier, seed), shard)
     deadline = time.time() + (420 if tier == 'quick' else 2400)
     agg = dict(per_ratio={}, gap_modes={}, ready_modes={}, back_to_back=0, ready_low_cycles=0, stalls=[], latency_hist={}, stalled_deliveries=0,
-               sample_hist={}, acc_ratio={}, compositions={}, overlap_cycles=0)
+               sample_hist={}, acc_ratio={}, compositions={}, overlap_cycles=0, env={})
     skipped = 0
     for spec in specs:
         if time.time() > deadline:
@@ -891,6 +1055,7 @@ def run_check(run, tier, seed, shard):
     run.extra['valid_held_acceptances'] = agg['back_to_back']
     run.extra['ready_low_cycles'] = agg['ready_low_cycles']
     run.extra['compositions_by_topology'] = agg['compositions']
+    run.extra['transfers_cross_checked_by_env_block_placement'] = agg['env']
     run.extra['cycles_with_two_links_mid_frame'] = agg['overlap_cycles']
     run.extra['deliveries_stalled_over_2_bit_periods'] = agg['stalled_deliveries']
     if shard is None:
@@ -906,6 +1071,9 @@ def post_merge(run, tier, seed):
         run.inconclusive.append('no back-to-back acceptance was observed')
     if not run.extra.get('deliveries_stalled_over_2_bit_periods'):
         run.inconclusive.append('no delivery was ever stalled for more than 2 bit periods')
+    envs = run.extra.get('transfers_cross_checked_by_env_block_placement', {})
+    if len([k for k, v in envs.items() if v]) < 4:
+        run.inconclusive.append('clocked environment blocks were not observed in all four placements: %s' % envs)
     if not run.extra.get('cycles_with_two_links_mid_frame'):
         run.inconclusive.append('no cycle was observed in which two links were receiving at the same time')
     if not run.extra.get('ready_low_cycles'):
